@@ -104,6 +104,15 @@ REQUIRE = {
     "pile.focus_dependent_pack_measured": 600,
     "pile.focus_dependent_pack_nonfocus_item_container_focus_True": 200,
     "pile.focus_dependent_pack_focus_item_container_focus_True": 80,
+    "ovl.directed_fixed_top_cases": 3200,
+    "ovl.directed_fixed_top_overflowing_both_axes": 800,
+    "ovl.clipped_on_both_axes_position_checked": 700,
+    "ovl.clipped_on_one_axis_position_checked": 2000,
+    "grid.directed_live_cases": 2200,
+    "grid.live_histories_judged": 2200,
+    "grid.live_op_cw": 2200,
+    "grid.live_op_cw_same_value": 1000,
+    "grid.live_cell_width_assigned_after_per_cell_widths": 2200,
     "grid.directed_core_cases": 800,
     "grid.directed_wrap_window_cases": 140,
     "grid.evals": 500,
@@ -121,7 +130,7 @@ RULE = (
     "random beyond (<=7 columns, sizes to 30, float and zero weights, zero given, box_columns flags, flow/fixed/box spy sizings, maxcol "
     "to 80). Pile: same scheme over <=4 items x {given 1..6, pack spy rows 1..6, weight 1..3} x maxrow 1..24. Padding / Filler / "
     "Overlay: align kinds {left,center,right,relative 0,1,33,50,67,99,100} x size kinds {given, relative, pack, clip} x min sizes x "
-    "margins 0..3 x available 1..24, random beyond. Live histories: random sequences of size / focus_position / contents[i]= / box_columns= on one Columns or box Pile, all clauses re-judged after every operation. Focus-dependent children: a deterministic core of 2496 Columns + 312 box Pile cases with pack spies whose pack()/rows() answer depends on the focus argument (FIXED and FLOW measuring paths) x every focus position x container focus flag; own size = the spy's answer for the focus flag it is rendered with. GridFlow: directed core first (1..5 cells x cell width 1..5 x h_sep 0..2 x every maxcol from 1 to two past the one-line width, deterministic, not time-limited; a second directed core of non-uniform grids with one or two cells reconfigured through contents[i] = (w, options(width_amount=N)) / ('given', N), each cell judged at its own configured width), then 1..8 cells x cell width x separators x align x maxcol, glyph boxes read "
+    "margins 0..3 x available 1..24, random beyond. Live histories: random sequences of size / focus_position / contents[i]= / box_columns= on one Columns or box Pile, all clauses re-judged after every operation. Overlay fixed tops: a deterministic core of 3200 width='pack' top widgets of (cols-1, cols, cols+1, cols+5) x (rows-1, rows, rows+1, rows+4) over (4,3) and (7,5), every align x valign kind, margins; a clipped top that cannot be rendered or is not drawn between the margins is a violation. GridFlow live histories: a cell is given its own width, optionally the grid is rendered, then cell_width is assigned (same value or another); the model follows the documented rule 'setting cell_width affects all cells' and is never read back from urwid (2304 directed cases + random ops setw/cw/render/focus). Focus-dependent children: a deterministic core of 2496 Columns + 312 box Pile cases with pack spies whose pack()/rows() answer depends on the focus argument (FIXED and FLOW measuring paths) x every focus position x container focus flag; own size = the spy's answer for the focus flag it is rendered with. GridFlow: directed core first (1..5 cells x cell width 1..5 x h_sep 0..2 x every maxcol from 1 to two past the one-line width, deterministic, not time-limited; a second directed core of non-uniform grids with one or two cells reconfigured through contents[i] = (w, options(width_amount=N)) / ('given', N), each cell judged at its own configured width), then 1..8 cells x cell width x separators x align x maxcol, glyph boxes read "
     "off the canvas. A case = (container, options, focus, available size); distinct = distinct (options, focus) tuples for the two "
     "exhaustive cores and distinct full descriptors elsewhere; beyond 250k distinct descriptors per shard further cases are evaluated but not de-duplicated (counter cases_beyond_distinct_cap_not_deduplicated); *.shards_complete counters tell how many shards finished their slice of each enumeration in the time budget; non-trivial = the real code was executed and judged (cases for which "
     "urwid emits a WidgetWarning are counted as skipped_invalid, not as evaluations)"
@@ -1160,11 +1169,11 @@ def case_overlay(d, obs):
             obs.c["ovl.render_raise_after_arithmetic_failure"] += 1  # consequence of the failure already reported
         elif cw == 0 or chh == 0:
             obs.c["ovl.render_raise_with_zero_size_top_not_judged"] += 1
-        elif min(left, right, top, bottom) < 0:
-            # arithmetic is right (clipping = negative margin) but Overlay.render hands the negative offset to CanvasOverlay:
-            # a render-contract matter (C01), no clause of C19 is involved
-            obs.c["ovl.render_raise_with_clipped_top_not_judged"] += 1
         else:
+            # (round 1 exempted clipped tops here because Overlay.render then mis-placed every clipped canvas; fixed upstream in
+            # fb41765, so a clipped top that cannot be rendered is again "margins plus the visible child do not fill the space")
+            if min(left, right, top, bottom) < 0:
+                shape += "|clipped-" + ("both-axes" if min(left, right) < 0 and min(top, bottom) < 0 else ("h" if min(left, right) < 0 else "v"))
             obs.fail(f"C19|Overlay|render|raise:{type(rerr).__name__}|{shape}", f"{type(rerr).__name__}: {rerr}\n{rtb}")
         return
     if obs.fails:
@@ -1174,6 +1183,10 @@ def case_overlay(d, obs):
         obs.fail(f"C19|Overlay|render|canvas-size!=size|{shape}", f"{ccols}x{crows} vs {size}")
         return
     obs.c["ovl.canvas_position_checked"] += 1
+    if min(left, right) < 0 and min(top, bottom) < 0:
+        obs.c["ovl.clipped_on_both_axes_position_checked"] += 1
+    elif min(left, right, top, bottom) < 0:
+        obs.c["ovl.clipped_on_one_axis_position_checked"] += 1
     box, filled = bbox(rows, "t")
     x0, x1 = max(left, 0), maxcol - max(right, 0)
     y0, y1 = max(top, 0), maxrow - max(bottom, 0)
@@ -1197,9 +1210,24 @@ def case_gridflow(d, obs):
     spies = [spy(GLYPHS[i], "l", pw=cw, ph=c[0], selectable=bool(c[1])) for i, c in enumerate(cells)]
     # a cell may carry its own configured width (third element), set through the documented
     # grid.contents[i] = (w, grid.options(width_amount=N)); the oracle reads each cell's width from this descriptor
-    own = [c[2] if len(c) > 2 and c[2] else None for c in cells]
+    own0 = [c[2] if len(c) > 2 and c[2] else None for c in cells]
+    own = list(own0)
+    cw0 = cw
+    # history of public operations on the live grid (model state updated by the documented rule, never read back from urwid):
+    #   ["setw", i, N]  grid.contents[i] = (w, grid.options(width_amount=N))   -> that cell's configured width is N
+    #   ["cw", N]       grid.cell_width = N  ("Setting this value affects all cells") -> EVERY cell's configured width is N
+    #   ["render"]      render at the case's size (warms the display-widget cache);  ["focus", i]
+    ops = d.get("ops") or []
+    for op in ops:
+        if op[0] == "setw":
+            own[op[1] % n] = op[2]
+        elif op[0] == "cw":
+            cw = op[1]
+            own = [None] * n
+    if ops:
+        shape += "|after-live-ops"
     wid = [o or cw for o in own]
-    uniform = not any(own)
+    uniform = not any(o and o != cw for o in own)
     if not uniform:
         shape += "|per-cell-widths"
         if maxcol is None or max(wid) > maxcol:
@@ -1207,10 +1235,24 @@ def case_gridflow(d, obs):
             return
 
     def mk():
-        G = urwid.GridFlow(spies, cw, hs, vs, py_align(d["align"]), focus=d["focus"])
-        for i, o in enumerate(own):
+        G = urwid.GridFlow(spies, cw0, hs, vs, py_align(d["align"]), focus=d["focus"])
+        for i, o in enumerate(own0):
             if o:
                 G.contents[i] = (spies[i], G.options(width_amount=o) if i % 2 == 0 else ("given", o))
+        for op in ops:
+            obs.c[f"grid.live_op_{op[0]}"] += 1
+            if op[0] == "setw":
+                G.contents[op[1] % n] = (spies[op[1] % n], G.options(width_amount=op[2]))
+            elif op[0] == "cw":
+                if op[1] == G.cell_width:
+                    obs.c["grid.live_op_cw_same_value"] += 1
+                G.cell_width = op[1]
+            elif op[0] == "render":
+                G.render(size, False)
+            elif op[0] == "focus":
+                G.focus_position = op[1] % n
+        for sp in spies:
+            sp.reset()
         return G
 
     size = () if maxcol is None else (maxcol,)
@@ -1312,6 +1354,15 @@ def case_gridflow(d, obs):
         obs.c["grid.multi_line"] += 1
     if not uniform:
         obs.c["grid.per_cell_width_cases_judged"] += 1
+    if ops:
+        obs.c["grid.live_histories_judged"] += 1
+        percell = any(own0)
+        for op in ops:
+            if op[0] == "setw":
+                percell = True
+            elif op[0] == "cw" and percell:
+                obs.c["grid.live_cell_width_assigned_after_per_cell_widths"] += 1
+                break
 
 
 def case_live(d, obs):
@@ -2046,6 +2097,23 @@ def overlay_exhaustive(ctx, obs, frac):
     ctx.sample(overlay_desc("center", "middle", "g", 4, "p", 2, None, None, 1, 0, 0, 1, 12, 8, 12))
 
 
+def overlay_directed_fixed(ctx, obs):
+    """deterministic core, not time-limited: fixed (width='pack') top widgets around the size of the overlay -- narrower, equal,
+    wider on each axis independently, both axes overflowing at once included -- every align x valign kind, margins"""
+    idx = 0
+    for (cols, rows), dw, dh in itertools.product(((4, 3), (7, 5)), (-1, 0, 1, 5), (-1, 0, 1, 4)):
+        for al, va in itertools.product(ALIGNS, VALIGNS):
+            idx += 1
+            if not ctx.mine(idx):
+                continue
+            m = [(0, 0, 0, 0), (1, 0, 0, 1), (0, 2, 1, 0), (1, 1, 1, 1)][idx % 4]
+            d = overlay_desc(al, va, "p", cols + dw, "p", rows + dh, (None, 2)[idx % 2], (None, 2)[(idx // 2) % 2], m[0], m[1], m[2], m[3], cols, rows)
+            run_desc(ctx, obs, d)
+            obs.c["ovl.directed_fixed_top_cases"] += 1
+            if dw > 0 and dh > 0:
+                obs.c["ovl.directed_fixed_top_overflowing_both_axes"] += 1
+
+
 def rand_overlay(rng):
     def k(allow_pack):
         r = rng.random()
@@ -2112,6 +2180,27 @@ def gridflow_directed_nonuniform(ctx, obs):
                     obs.c["grid.directed_per_cell_width_cases"] += 1
 
 
+def gridflow_directed_live(ctx, obs):
+    """deterministic core, not time-limited: a cell is given its own width, (optionally the grid is rendered,) then cell_width is
+    assigned -- the value it already has, or another one; by the documented rule every cell then has the assigned width"""
+    idx = 0
+    for n, cw, hs in itertools.product((2, 3), (2, 3, 4), (0, 1)):
+        for pos, ow, newcw, warm in itertools.product(range(n), (1, 5), (cw, cw + 1), (False, True)):
+            ops = [["setw", pos, ow]] + ([["render"]] if warm else []) + [["cw", newcw]]
+            if (pos + ow + newcw) % 3 == 0:
+                ops.append(["setw", (pos + 1) % n, 2])
+            for maxcol in range(max(newcw, ow, cw), n * max(newcw, ow) + (n - 1) * hs + 2):
+                idx += 1
+                if not ctx.mine(idx):
+                    continue
+                d = {"k": "gridflow", "cells": [[1, False]] * n, "cw": cw, "hsep": hs, "vsep": idx % 2, "align": ALIGNS[idx % len(ALIGNS)],
+                     "focus": idx % n, "maxcol": maxcol, "ops": ops}  # fmt: skip
+                before = obs.c["grid.live_histories_judged"]
+                run_desc(ctx, obs, d)
+                if obs.c["grid.live_histories_judged"] > before:
+                    obs.c["grid.directed_live_cases"] += 1
+
+
 def gridflow_exhaustive(ctx, obs, frac):
     idx = 0
     complete = True
@@ -2151,6 +2240,21 @@ def rand_gridflow(rng):
         for c in d["cells"]:
             if rng.random() < 0.4:
                 c.append(rng.randint(1, max(1, min(14, d["maxcol"]))))
+    if d["maxcol"] is not None and rng.random() < 0.4:
+        ops = []
+        cur = cw
+        for _ in range(rng.randint(1, 5)):
+            r = rng.random()
+            if r < 0.35:
+                ops.append(["setw", rng.randrange(n), rng.randint(1, max(1, min(14, d["maxcol"])))])
+            elif r < 0.65:
+                cur = cur if rng.random() < 0.5 else rng.randint(1, max(1, min(12, d["maxcol"])))
+                ops.append(["cw", cur])
+            elif r < 0.85:
+                ops.append(["render"])
+            else:
+                ops.append(["focus", rng.randrange(n)])
+        d["ops"] = ops
     return d
 
 
@@ -2182,6 +2286,8 @@ def run(ctx):
     obs = Obs()
     gridflow_directed(ctx, obs)
     gridflow_directed_nonuniform(ctx, obs)
+    gridflow_directed_live(ctx, obs)
+    overlay_directed_fixed(ctx, obs)
     entry_sweep(ctx, obs)
     focus_dep_sweep(ctx, obs)
     ctx.extra["directed_cores_seconds_shard0"] = round(ctx.elapsed(), 2)
